@@ -559,19 +559,23 @@ func (env *SpecEnv) applyPure(pf *PureFn, home *ContractSet, e *SExpr) Val {
 		}
 	}
 	if pf.Body == nil {
-		// uninterpreted function (declared once)
+		// uninterpreted function (declared once). A slice argument contributes, besides its header, the
+		// current content of its backing array as a hidden argument, so the function may depend on the
+		// elements (and stays a function of its arguments when the heap changes).
 		fn := sym("spec$" + pf.Name)
-		if !fc.declared[fn] {
-			fc.declared[fn] = true
-			var ss []string
-			for _, a := range args {
-				ss = append(ss, fc.sortOf(a.Ty))
-			}
-			fc.addPre(fmt.Sprintf("(declare-fun %s (%s) %s)", fn, strings.Join(ss, " "), fc.sortOf(rt)))
-		}
-		var ts []string
+		var ts, ss []string
 		for _, a := range args {
 			ts = append(ts, a.T)
+			ss = append(ss, fc.sortOf(a.Ty))
+			if sl, ok := a.Ty.Underlying().(*types.Slice); ok {
+				key, srt := fc.elemsKey(sl.Elem())
+				ts = append(ts, app("select", fc.heapGet(env.st(), key, srt), app("s-arr", a.T)))
+				ss = append(ss, fmt.Sprintf("(Array %s %s)", fc.I(), fc.sortOf(sl.Elem())))
+			}
+		}
+		if !fc.declared[fn] {
+			fc.declared[fn] = true
+			fc.addPre(fmt.Sprintf("(declare-fun %s (%s) %s)", fn, strings.Join(ss, " "), fc.sortOf(rt)))
 		}
 		return Val{T: app(fn, ts...), Ty: rt}
 	}
